@@ -1842,6 +1842,30 @@ let fr_divexact n0 d =
          then Ok (of_mpz (Z.div nn dd))
          else Err Gmp_inexact
 
+(** val fr_divexact_fixed : fr -> fr -> fr res **)
+
+let fr_divexact_fixed n0 d =
+  let gmp =
+    let nn = (mpq_of n0).qnum in
+    let dd = (mpq_of d).qnum in
+    if Z.eqb dd Z0
+    then Err Gmp_inexact
+    else if Z.eqb (Z.modulo nn dd) Z0
+         then Ok (of_mpz (Z.div nn dd))
+         else Err Gmp_inexact
+  in
+  (match n0 with
+   | Word (num, _) ->
+     (match d with
+      | Word (den, _) ->
+        if negb ((&&) (Z.eqb num wORD_MIN) (Z.eqb den (Zneg XH)))
+        then if negb (Z.eqb den Z0)
+             then rbind (lift (sdiv32 num den)) (fun q0 -> Ok (of_word q0))
+             else Ok (of_word Z0)
+        else gmp
+      | Big _ -> gmp)
+   | Big _ -> gmp)
+
 (** val fr_round_to_int : fr -> fr res **)
 
 let fr_round_to_int n0 =
